@@ -550,9 +550,9 @@ func DecodeEventQueryResponse(payload []byte) (*EventQueryResult, error) {
 		if res.Model != nil || res.Collection != nil {
 			return nil, errInvalidResponse
 		}
-		// Assert events has no null values
+		// Assert events has no null values, or events without name
 		for _, ev := range res.Events {
-			if ev == nil {
+			if ev == nil || ev.Event == "" {
 				return nil, errInvalidResponse
 			}
 		}
